@@ -23,6 +23,7 @@ Spec so that it also works when the Lean driver is unavailable).
 """
 import copy
 import glob
+import itertools
 import json
 import math
 import os
@@ -260,26 +261,82 @@ def is_raw(items):
             return (not it[1]) or is_raw(it[2]['build'])
         if it[0] in ('W', 'I', 'X'):
             return is_raw(it[1]['build'])
+        if it[0] == 'UF':
+            return not it[1]
         return False
     return any(raw_item(it) for it in items)
 
 
+FILE_KINDS = ('S', 'L', 'UF', 'WF', 'IF', 'XF')
+
+
+_hist_counter = [0]
+
+
 def run_impl(m, items, tmp=None):
-    """run a whole history on the real code; per item: dict(status, state, obs, operand, problem, cov, mult)"""
+    """run a whole history on the real code; per item: dict(status, state, obs, operand, problem, cov, mult).
+    `S f` / `L f` save the current region to / replace it by a load of file f; every object ever obtained stays
+    alive (list `alive`), so aliasing between a loaded region and anything else in the process would show."""
+    import shutil
+    import tempfile
     from AegeanTools.regions import Region
+    own = None
+    if tmp is None and any(it[0] in FILE_KINDS for it in items):
+        own = tmp = tempfile.mkdtemp(prefix='verif-C08-', dir='/dev/shm' if os.path.isdir('/dev/shm') else None)
+    _hist_counter[0] += 1
+    files, alive, made = {}, [], []
     r = Region(m)
     recs = []
-    for it in items:
-        try:
-            r, obs, other = apply_item2(r, it, tmp)
-        except Exception as e:   # anything but the documented AssertionError
-            recs.append(dict(crash='%s: %s' % (type(e).__name__, e)))
-            break
-        prob, cov, mult = inspect(r)
-        recs.append(dict(status='err assert' if obs == 'err assert' else 'ok', state=state_str(r),
-                         obs='-' if obs == 'err assert' else obs,
-                         operand=state_str(other) if (other is not None and obs != 'err assert') else '-',
-                         problem=prob, cov=cov, mult=mult))
+    try:
+        for it in items:
+            k = it[0]
+            try:
+                other = None
+                if k == 'S':
+                    fn = os.path.join(tmp, 'h%d_f%d.mim' % (_hist_counter[0], it[1]))
+                    r.save(fn)
+                    files[it[1]] = fn
+                    made.append(fn)
+                    obs = '-'
+                elif k in ('L', 'UF', 'WF', 'IF', 'XF'):
+                    f = it[-1]
+                    if f not in files:
+                        obs = 'err nofile'        # Region.load would raise FileNotFoundError
+                    elif k == 'L':
+                        alive.append(r)
+                        r = Region.load(files[f])
+                        obs = '-'
+                    else:
+                        o = Region.load(files[f])
+                        alive.append(o)
+                        try:
+                            if k == 'UF':
+                                r.union(o, renorm=bool(it[1]))
+                            else:
+                                {'WF': r.without, 'IF': r.intersect, 'XF': r.symmetric_difference}[k](o)
+                            obs = '-'
+                        except AssertionError:
+                            obs = 'err assert'
+                else:
+                    r, obs, other = apply_item2(r, it, tmp)
+            except Exception as e:   # anything but the documented AssertionError
+                recs.append(dict(crash='%s: %s' % (type(e).__name__, e)))
+                break
+            prob, cov, mult = inspect(r)
+            err = obs.startswith('err ')
+            recs.append(dict(status=obs if err else 'ok', state=state_str(r),
+                             obs='-' if err else obs,
+                             operand=state_str(other) if (other is not None and not err) else '-',
+                             problem=prob, cov=cov, mult=mult))
+    finally:
+        if own:
+            shutil.rmtree(own, ignore_errors=True)
+        else:
+            for fn in made:
+                try:
+                    os.unlink(fn)
+                except OSError:
+                    pass
     return recs
 
 
@@ -314,8 +371,22 @@ def judge_spec(m, items, recs, spec):
 
 
 def py_spec(m, items):
-    S, out = set(), []
+    S, out, files = set(), [], {}
     for it in items:
+        k = it[0]
+        if k == 'S':
+            files[it[1]] = frozenset(S)
+            out.append((showset(S), '-'))
+            continue
+        if k in ('L', 'UF', 'WF', 'IF', 'XF'):
+            f = it[-1]
+            if f not in files:
+                out.append((showset(S), 'err nofile'))
+                continue
+            F = files[f]                      # files hold regions of this history: same depth m
+            S = {'L': set(F), 'UF': S | F, 'WF': S - F, 'IF': S & F, 'XF': S ^ F}[k]
+            out.append((showset(S), '-'))
+            continue
         S2, obs = py_spec_step(m, S, it)
         if obs == 'err assert':
             out.append((showset(S), 'err assert'))
@@ -365,6 +436,10 @@ def enc_item(m, it, opstates):
         return '%s %s' % (k, enc_region(opstates[opnd_key(it[1])]))
     if k == 'Q':
         return 'Q %s' % enc_pixels(it[1])
+    if k in ('S', 'L', 'WF', 'IF', 'XF'):
+        return '%s %d' % (k, it[1])
+    if k == 'UF':
+        return 'UF %d %d' % (1 if it[1] else 0, it[2])
     raise ValueError(it)
 
 
@@ -479,7 +554,7 @@ def report_spec(ctx, found, m, items, j, do_shrink=True):
 
 
 def nontrivial_key(m, items):
-    mut = {'A', 'N', 'C', 'Y', 'U', 'W', 'I', 'X'}
+    mut = {'A', 'N', 'C', 'Y', 'U', 'W', 'I', 'X', 'L', 'UF', 'WF', 'IF', 'XF'}
     first = next((i for i, it in enumerate(items) if it[0] in mut), None)
     if first is None or first == len(items) - 1:
         return None
@@ -613,6 +688,38 @@ def exhaustive(ctx, found, m, length, tmp):
     ctx.count('exhaustive m=%d len=%d' % (m, length), total)
 
 
+def file_alphabet(m, wide):
+    top = 12 * 4 ** m
+    al = [
+        ['N', m, [1, 2, 3, 9]],
+        ['W', {'m': m, 'build': [['N', m, [2, 9]]]}],
+        ['S', 0],
+        ['L', 0],
+        ['D'],
+        ['WF', 0],
+    ]
+    if wide:
+        al += [['N', m, [0, 17 % top]], ['S', 1], ['XF', 1]]
+    return al
+
+
+def file_stream(ctx, found, m, length, tmp, wide):
+    """all sequences of `length` items over file_alphabet(m).  No prefix sharing by deep copies here: a copy would
+    break exactly the aliasing (between a loaded region and anything else alive) this stream is after."""
+    al = file_alphabet(m, wide)
+    n = len(al)
+    total = n ** length
+    if total > 20000:          # wide: all of length-1, a sample of `length`
+        seqs = list(itertools.product(range(n), repeat=length - 1))
+        seqs += [tuple(ctx.rng.randrange(n) for _ in range(length)) for _ in range(12000)]
+    else:
+        seqs = list(itertools.product(range(n), repeat=length))
+    hs = [(m, [al[i] for i in p]) for p in seqs]
+    for k in range(0, len(hs), 3000):
+        run_histories(ctx, found, hs[k:k + 3000], tmp)
+    ctx.count('file stream m=%d' % m, len(hs))
+
+
 def rand_pixels(rng, d, n, top_only=False):
     top = 12 * 4 ** d
     base = rng.randrange(top)
@@ -692,84 +799,223 @@ def rand_history(rng, raw_ok):
             items.append(['P'])
         else:
             items.append(['R'])
+        y = rng.random()
+        if y < 0.10:
+            items.append(['S', rng.randrange(2)])
+        elif y < 0.20:
+            items.append(['L', rng.randrange(2)])
+        elif y < 0.26:
+            items.append(rng.choice([['WF', 0], ['IF', 1], ['XF', 0], ['UF', 1, 1], ['UF', 1, 0]]))
     return m, items
 
 
 # ------------------------------------------------------------------------------------------------
 # MIMAS.combine_regions
 
-def combine_case(ctx, found, rng, tmp, idx):
-    from AegeanTools import MIMAS
-    hp = hp_()
-    m = rng.choice([3, 4, 5, 6, 8])
-    cont = MIMAS.Dummy(maxdepth=m)
-    items = []
-    res = math.sqrt(4 * math.pi / (12 * 4 ** m))
+STAGES = ('add', 'rem', 'inc_c', 'exc_c', 'inc_p', 'exc_p')
 
-    def save_opnd(o, name):
-        fn = os.path.join(tmp, '%s_%d.mim' % (name, idx))
-        build_operand(o).save(fn)
-        return fn
+
+def container_items(desc):
+    """the documented order of construction of MIMAS.combine_regions, as a history (what `Model.C08.combineOps`
+    and `refines_from_empty` are about): add regions, subtract regions, add circles, subtract circles, add
+    polygons, subtract polygons"""
+    m = desc['m']
+    items = []
+    for o in desc.get('add', []):
+        items.append(['U', 1, o])
+    for o in desc.get('rem', []):
+        items.append(['W', o])
+    for c in desc.get('inc_c', []):
+        a = np.radians(np.array(c, dtype=float))
+        items.append(['C', float(a[0]), float(a[1]), float(a[2]), m])
+    for c in desc.get('exc_c', []):
+        a = np.radians(np.array(c, dtype=float))
+        items.append(['W', {'m': m, 'build': [['C', float(a[0]), float(a[1]), float(a[2]), m]]}])
+    for p in desc.get('inc_p', []):
+        a = np.radians(np.array(p, dtype=float)).reshape(-1, 2)
+        items.append(['Y', [[float(x), float(y)] for x, y in a], m])
+    for p in desc.get('exc_p', []):
+        a = np.radians(np.array(p, dtype=float)).reshape(-1, 2)
+        items.append(['W', {'m': m, 'build': [['Y', [[float(x), float(y)] for x, y in a], m]]}])
+    return items
+
+
+_cont_counter = [0]
+
+
+def run_container(desc, tmp):
+    """call the real MIMAS.combine_regions on the container described by `desc`; returns the Region"""
+    from AegeanTools import MIMAS
+    m = desc['m']
+    cont = MIMAS.Dummy(maxdepth=m)
+    _cont_counter[0] += 1
+    made = []
+    try:
+        for key, lst in (('add', cont.add_region), ('rem', cont.rem_region)):
+            for k, o in enumerate(desc.get(key, [])):
+                fn = os.path.join(tmp, 'c%d_%s%d.mim' % (_cont_counter[0], key, k))
+                build_operand(o).save(fn)
+                made.append(fn)
+                lst.append([fn])
+        cont.include_circles = [list(c) for c in desc.get('inc_c', [])]
+        cont.exclude_circles = [list(c) for c in desc.get('exc_c', [])]
+        cont.include_polygons = [list(p) for p in desc.get('inc_p', [])]
+        cont.exclude_polygons = [list(p) for p in desc.get('exc_p', [])]
+        return MIMAS.combine_regions(cont)
+    finally:
+        for fn in made:
+            try:
+                os.unlink(fn)
+            except OSError:
+                pass
+
+
+def container_verdict(desc, tmp):
+    """None if combine_regions(desc) is the set expression of the documented order, else a description"""
+    m = desc['m']
+    items = container_items(desc)
+    if not items:
+        return None
+    want = py_spec(m, [resolve(m, it) for it in items])[-1][0]
+    try:
+        region = run_container(desc, tmp)
+    except AssertionError:
+        return None if any(o['m'] != m for o in desc.get('rem', [])) else 'combine_regions raised AssertionError'
+    except Exception as e:
+        return 'combine_regions raised %s: %s' % (type(e).__name__, e)
+    prob, cov, mult = inspect(region)
+    if prob:
+        return '%s: %s' % prob
+    got = showset(cov)
+    if got != want:
+        S, W = set(cov), set(int(x) for x in want.split(',')) if want else set()
+        return ('combine_regions covers %d deepest pixels, the documented order of construction gives %d '
+                '(missing %s, extra %s)' % (len(S), len(W), sorted(W - S)[:8], sorted(S - W)[:8]))
+    if mult != len(cov):
+        return 'combine_regions result represents %d deepest pixels with stored pixels adding up to %d' % (len(cov), mult)
+    return None
+
+
+def shrink_container(desc, tmp):
+    cur = json.loads(json.dumps(desc))
+    changed = True
+    while changed:
+        changed = False
+        for key in STAGES:
+            for i in range(len(cur.get(key, []))):
+                cand = json.loads(json.dumps(cur))
+                del cand[key][i]
+                try:
+                    bad = container_verdict(cand, tmp)
+                except Exception:
+                    bad = None
+                if bad:
+                    cur, changed = cand, True
+                    break
+            if changed:
+                break
+    return cur
+
+
+def check_containers(ctx, found, descs, tmp):
+    """real combine_regions vs the Spec's set expression, and the equivalent histories through model + Spec"""
+    hist = []
+    for desc in descs:
+        items = container_items(desc)
+        if not items:
+            continue
+        hist.append((desc['m'], items))
+        bad = container_verdict(desc, tmp)
+        ctx.count('combine_regions')
+        ctx.count('combine stages ' + '+'.join(k for k in STAGES if desc.get(k)))
+        if bad and ('combine', 'order') not in found.kinds:
+            found.kinds[('combine', 'order')] = 1
+            small = shrink_container(desc, tmp)
+            ctx.fail('spec', dict(via='MIMAS.combine_regions', container=small, m=small['m'], items=container_items(small)),
+                     container_verdict(small, tmp) or bad,
+                     dict(site='MIMAS.combine_regions', what='order-of-construction',
+                          stages='+'.join(k for k in STAGES if small.get(k))))
+    for k in range(0, len(hist), 100):
+        run_histories(ctx, found, hist[k:k + 100], tmp)
+
+
+def disc_operand(m, om, ra, dec, rad):
+    """an operand region file: a disc (degrees) at depth om"""
+    a = np.radians(np.array([ra, dec, rad], dtype=float))
+    return {'m': om, 'build': [['C', float(a[0]), float(a[1]), float(a[2]), om]]}
+
+
+def systematic_containers(rng, m):
+    """one container per non-empty subset of the six stages, every shape overlapping the one of the stage before
+    (a removed region inside the added one, an included circle over the removed region, an excluded circle inside
+    the included one, an included polygon over the excluded circle, an excluded polygon cutting the included
+    polygon) so that any re-ordering or re-use between stages changes the result"""
+    res = math.degrees(math.sqrt(4 * math.pi / (12 * 4 ** m)))
+    out = []
+    for mask in range(1, 64):
+        ra0, dec0 = rng.uniform(20, 340), rng.uniform(-50, 50)
+        cd = math.cos(math.radians(dec0))
+
+        def at(dx, dy):
+            return ra0 + dx * res / cd, dec0 + dy * res
+
+        def tri(cx, cy, sz):
+            x, y = at(cx, cy)
+            return [x - sz * res / cd, y - sz * res / 2, x + sz * res / cd, y - sz * res / 2, x + sz * res / (3 * cd), y + sz * res]
+        d = dict(m=m)
+        if mask & 1:
+            d['add'] = [disc_operand(m, max(1, m + rng.choice([0, 0, 1, -1])), *at(0, 0), 4 * res)]
+            if rng.random() < 0.3:
+                d['add'].append(disc_operand(m, m, *at(5, 1), 1.5 * res))
+        if mask & 2:
+            d['rem'] = [disc_operand(m, m, *at(1.5, 0), 1.8 * res)]
+        if mask & 4:
+            d['inc_c'] = [list(at(1.0, 0.5)) + [2.5 * res]]
+            if rng.random() < 0.3:
+                d['inc_c'].append(list(at(-4, -1)) + [1.0 * res])
+        if mask & 8:
+            d['exc_c'] = [list(at(0.5, 0.0)) + [1.6 * res]]
+            if rng.random() < 0.4:
+                d['exc_c'].append(list(at(-2.5, 1.0)) + [1.0 * res])
+        if mask & 16:
+            d['inc_p'] = [tri(0.5, 0.0, 2.0)]
+        if mask & 32:
+            d['exc_p'] = [tri(-0.6, 0.2, 1.3) if rng.random() < 0.7 else tri(9, 3, 1.3)]
+            if rng.random() < 0.3:
+                d['exc_p'].append(tri(2.5, -1.0, 1.0))
+        out.append(d)
+    return out
+
+
+def random_container(rng):
+    m = rng.choice([3, 4, 5, 6, 8])
+    res = math.degrees(math.sqrt(4 * math.pi / (12 * 4 ** m)))
+    d = dict(m=m)
     first = None
     for k in range(rng.randint(0, 2)):
         o = rand_operand(rng, m, 0 if k == 0 else rng.choice([0, -1, 1]))
         o['build'] = [it for it in o['build'] if it[0] != 'A']
-        if first is None:
-            first = o
-        cont.add_region.append([save_opnd(o, 'add%d' % k)])
-        items.append(['U', 1, o])
+        first = first or o
+        d.setdefault('add', []).append(o)
     for k in range(rng.randint(0, 1) if first is None else 1):
         o = rand_operand(rng, m, 0)
         o['build'] = [it for it in o['build'] if it[0] != 'A']
         if first is not None:
-            # overlap what was added, so that the order add-then-remove matters
             d0, ps0 = first['build'][0][1], first['build'][0][2]
             o['build'] = [['N', d0, ps0[:max(1, len(ps0) // 2)]]] + o['build'][:1]
-        cont.rem_region.append([save_opnd(o, 'rem%d' % k)])
-        items.append(['W', o])
+        d.setdefault('rem', []).append(o)
 
     def circle():
-        ra, dec = rng.uniform(0, 360), math.degrees(math.asin(rng.uniform(-1, 1)))
-        return [ra, dec, math.degrees(res) * rng.uniform(0.5, 3.0)]
+        return [rng.uniform(0, 360), math.degrees(math.asin(rng.uniform(-1, 1))), res * rng.uniform(0.5, 3.0)]
 
     def poly():
         ra, dec = rng.uniform(10, 350), math.degrees(math.asin(rng.uniform(-0.9, 0.9)))
-        s = math.degrees(res) * rng.uniform(1.0, 3.0)
-        return [ra - s, dec - s / 2, ra + s, dec - s / 2, ra + s / 3, dec + s]
-    for k in range(rng.randint(0, 2)):
-        cs = [circle()]          # the CLI appends one `+c ra dec radius` triple per entry
-        flat = [v for c in cs for v in c]
-        cont.include_circles.append(flat)
-        arr = np.radians(np.array(flat))
-        ras, decs, radii = arr.reshape(3, arr.shape[0] // 3)      # exactly the (odd) reshape of the code
-        items.append(['C', [float(v) for v in ras], [float(v) for v in decs], [float(v) for v in radii], m])
-    for k in range(rng.randint(0, 1)):
-        c = circle()
-        cont.exclude_circles.append(c)
-        a = np.radians(np.array(c))
-        items.append(['W', {'m': m, 'build': [['C', float(a[0]), float(a[1]), float(a[2]), m]]}])
-    for k in range(rng.randint(0, 1)):
-        p = poly()
-        cont.include_polygons.append(p)
-        a = np.radians(np.array(p)).reshape(3, 2)
-        items.append(['Y', [[float(x), float(y)] for x, y in a], m])
-    for k in range(rng.randint(0, 1)):
-        p = poly()
-        cont.exclude_polygons.append(p)
-        a = np.radians(np.array(p)).reshape(3, 2)
-        items.append(['W', {'m': m, 'build': [['Y', [[float(x), float(y)] for x, y in a], m]]}])
-    if not items:
-        return
-    # the model / Spec say: run `items` from an empty region
-    region = MIMAS.combine_regions(cont)
-    recs = run_impl(m, items, tmp)
-    ok = run_histories(ctx, found, [(m, items)], tmp)
-    ctx.count('combine_regions')
-    if ok and state_str(region) != recs[-1]['state']:
-        ctx.fail('spec', dict(m=m, items=items, via='MIMAS.combine_regions'),
-                 'combine_regions built %s but the documented order of construction gives %s'
-                 % (state_str(region)[:300], recs[-1]['state'][:300]),
-                 dict(site='MIMAS.combine_regions', what='order-of-construction'))
+        s_ = res * rng.uniform(1.0, 3.0)
+        return [ra - s_, dec - s_ / 2, ra + s_, dec - s_ / 2, ra + s_ / 3, dec + s_]
+    for key, gen, hi in (('inc_c', circle, 2), ('exc_c', circle, 1), ('inc_p', poly, 1), ('exc_p', poly, 1)):
+        for _ in range(rng.randint(0, hi)):
+            d.setdefault(key, []).append(gen())
+    return d
 
 
 # ------------------------------------------------------------------------------------------------
@@ -786,6 +1032,9 @@ CORPUS = [
     dict(m=1, items=[['N', 1, [3]], ['D'], ['Q', [3, 4]], ['G']]),
     # a query between two additions, quads completing across the query
     dict(m=3, items=[['N', 3, [0, 1, 2]], ['Q', [3]], ['N', 3, [3]], ['G'], ['D'], ['P'], ['G']]),
+    # a loaded region is a fresh object: mutate one copy, load again, observe
+    dict(m=3, items=[['N', 3, [0, 1, 9]], ['S', 0], ['L', 0], ['W', {'m': 3, 'build': [['N', 3, [1]]]}], ['L', 0], ['D'],
+                     ['WF', 0], ['L', 0], ['G'], ['L', 1]]),
     # union(renorm=False) then query (open finding family: un-normalised state)
     dict(m=3, items=[['N', 2, [1]], ['U', 0, {'m': 3, 'build': [['N', 3, [4, 5]]]}], ['G']]),
 ]
@@ -822,14 +1071,20 @@ def run(ctx):
             for k in range(0, len(hs), 3000):
                 run_histories(ctx, found, hs[k:k + 3000], tmp)
             ctx.count('sampled m=%d len=5' % m, len(hs))
+    # several objects and .mim files: save / load / operands loaded from files, every sequence of length 5
+    file_stream(ctx, found, 2, 5, tmp, wide=not ctx.quick)
     # random histories: normalising alphabet, then with the raw primitives too
     n = 120 if ctx.quick else 1500
     for raw_ok in (False, True):
         hs = [rand_history(rng, raw_ok) for _ in range(n if not raw_ok else n // 3)]
         for k in range(0, len(hs), 200):
             run_histories(ctx, found, hs[k:k + 200], tmp)
-    for i in range(6 if ctx.quick else 120):
-        combine_case(ctx, found, rng, tmp, i)
+    # MIMAS.combine_regions: every non-empty subset of the six stages with overlapping shapes, then random ones
+    descs = []
+    for m in ([5] if ctx.quick else [3, 4, 5, 6, 7]):
+        descs += systematic_containers(rng, m)
+    descs += [random_container(rng) for _ in range(6 if ctx.quick else 120)]
+    check_containers(ctx, found, descs, tmp)
     ctx.extra['spec_failure_kinds'] = {'%s/%s' % k: v for k, v in found.kinds.items()}
 
 
@@ -860,8 +1115,13 @@ def replay(ctx, rec):
     common.use_repo()
     c = rec['case']
     found = Found()
-    if c.get('via') == 'MIMAS.combine_regions':
-        ctx.note('replaying the equivalent operation list of a combine_regions case')
+    if c.get('via') == 'MIMAS.combine_regions' and 'container' in c:
+        bad = container_verdict(c['container'], ctx.tmpdir())
+        if bad:
+            ctx.fail('spec', c, bad, dict(site='MIMAS.combine_regions', what='order-of-construction',
+                                          stages='+'.join(k for k in STAGES if c['container'].get(k))))
+        ctx.case(c)
+        return
     recs = run_impl(c['m'], c['items'], ctx.tmpdir())
     mr = model_lines(ctx, [(c['m'], c['items'])])[0] if ctx.driver_ok else None
     spec = [(x[4], x[5]) for x in mr] if mr is not None else py_spec(c['m'], [resolve(c['m'], it) for it in c['items']])
